@@ -33,9 +33,13 @@ def run(ck):
     ck.mc_must_fail("MCPatchAlias", "C13_asfound_share_value.cfg", workers=4, timeout=600)
     # identity level, in the composed object model: what a patch adds / replaces / copies consists of fresh nodes, a replaced value
     # is released, and from every such state leaf sets and releases stay local (values are independent of their source)
-    ck.mc("MCWorld", "W_mc_patch.cfg", workers=12, xmx="8g", timeout=1800)
+    if thorough:
+        ck.mc("MCWorld", "W_mc_patch.cfg", workers=12, xmx="8g", timeout=1800)
     ck.mc_must_fail("MCWorld", "W_asfound_patch_keeps_replaced.cfg", workers=4, timeout=600)
     exe = vlib.build("san", vlib.harness_sources(), "vh")
+    # (W_g_patch.cfg checks the same invariants and properties as W_mc_patch.cfg while it exports one history per sampled patch
+    # transition; the histories are replayed on the real library with every held node dumped after every call)
+    world.run_world_g(ck, exe, "W_g_patch.cfg", "patch", 1 if thorough else 3)
     n = 30000 if thorough else 1500
     tp = os.path.join(ck.dir, "v.ndjson")
     deaths = vlib.run_executions(exe, lambda st: ["c13", "drive", st, n], n, tp, timeout=1200)
